@@ -173,7 +173,12 @@ type evNode struct {
 	parkCh   chan struct{}
 	unpark   bool // a held poll has been released and not yet served
 	ended    bool
-	stalled  bool // a Stall line was recorded in this scenario
+	// log hand-over with the block-by-hash reply held back (PushLog step with "hold"): the reply is gated until
+	// the watcher has polled and scanned the heads scripted for the gap (or the poller is seen idle)
+	holdWant    bool
+	holdArrived bool
+	holdCh      chan struct{}
+	stalled     bool // a Stall line was recorded in this scenario
 	// re-observation step: request 0 is the scripted one, request 1 the sentinel (transaction "tS": one deep
 	// message of the core contract in block 1, mined by the harness at the start of every scenario).  Whatever
 	// calls the handler makes and in whatever order, a request is over when the next one is accepted, and the
@@ -638,6 +643,19 @@ func (e *evEth) GetBlockByNumber(ctx context.Context, tag string, full bool) (ma
 func (e *evEth) GetBlockByHash(ctx context.Context, h ethcommon.Hash, full bool) (*ethtypes.Header, error) {
 	n := e.n
 	n.mu.Lock()
+	if n.phase != 2 && n.holdWant {
+		// the log has been received; its block lookup is answered only when the harness opens the gate
+		n.holdWant, n.holdArrived = false, true
+		ch := make(chan struct{})
+		n.holdCh = ch
+		n.mu.Unlock()
+		t0 := time.Now()
+		<-ch
+		n.mu.Lock()
+		if time.Since(t0) > evSlow {
+			n.slow = true
+		}
+	}
 	defer n.mu.Unlock()
 	n.drain()
 	n.calls++
@@ -1021,7 +1039,8 @@ func (r *evRun) pushLog(st evStep) bool {
 	delivered := n.matches(lg) && !l.Null
 	key := pendingKey{TxHash: lg.TxHash, BlockHash: lg.BlockHash, EmitterAddress: PadAddress(n.sender(l.Sender)), Sequence: uint64(l.Seq)}
 	n.mu.Unlock()
-	if delivered {
+	hold := delivered && (vhBool(st.A, "hold") || len(st.Mid) > 0)
+	if delivered && !hold {
 		// no head may be emitted while the log is handed over: "log before head" must be a fact
 		if !r.park() {
 			return false
@@ -1032,15 +1051,55 @@ func (r *evRun) pushLog(st evStep) bool {
 	r.w.pendingMu.Unlock()
 	n.mu.Lock()
 	n.drain()
-	n.emit("PushLog", map[string]interface{}{"tx": tx, "i": idx + 1, "delivered": delivered}, nil)
+	n.emit("PushLog", map[string]interface{}{"tx": tx, "i": idx + 1, "delivered": delivered, "hold": hold}, nil)
 	notifier, id := n.notifier, n.subID
+	n.holdWant, n.holdArrived, n.holdCh = hold, false, nil
 	n.mu.Unlock()
 	if !delivered {
 		return true
 	}
+	release := func() {
+		n.mu.Lock()
+		n.holdWant = false
+		if n.holdCh != nil {
+			close(n.holdCh)
+			n.holdCh = nil
+		}
+		n.mu.Unlock()
+	}
 	if err := notifier.Notify(id, lg); err != nil {
 		r.line("Timeout", map[string]interface{}{"what": "notify: " + err.Error()}, nil)
 		return false
+	}
+	if hold {
+		// LogReceived .. PendingStored with the chain moving in between: the reply to the block lookup is held
+		// while the scripted heads are polled and scanned (if the poller runs) - a gate, not a sleep
+		if !r.waitFor(func() bool { n.mu.Lock(); defer n.mu.Unlock(); return n.holdArrived }) {
+			r.line("Stall", map[string]interface{}{"what": "log-intake"}, nil)
+			release()
+			return false
+		}
+		ok := r.settle()
+		for _, m := range st.Mid {
+			for _, x := range m.Steps {
+				if !ok {
+					break
+				}
+				n.mu.Lock()
+				n.drain()
+				n.applyEnv(x)
+				n.mid, n.nRcpt = nil, 0
+				n.mu.Unlock()
+				ok = r.settle()
+			}
+		}
+		// from here on no head is emitted until the entry is seen in pending (as in the plain hand-over)
+		ok = ok && r.park()
+		release()
+		if !ok {
+			r.unpark()
+			return false
+		}
 	}
 	ok := r.waitFor(func() bool {
 		r.w.pendingMu.Lock()
@@ -1270,6 +1329,10 @@ func evRunScenario(t *testing.T, tr *vhTrace, sc evScenario) {
 		close(n.parkCh)
 	}
 	n.ended = true
+	if n.holdCh != nil {
+		close(n.holdCh)
+		n.holdCh = nil
+	}
 	n.mu.Unlock()
 	cancel()
 }
